@@ -82,6 +82,16 @@ CHECKS = {
                 "the CPUID bit test, the XGETBV OS-state test and the next-lower flag. These are necessary conditions; byte-identity of "
                 "results across backends/configurations is NOT decided.",
     },
+    "C12": {
+        "engine": "PathAI (E1, intervals with backward refinement) + alignment contract (E5)",
+        "technique": "interval analysis with call-graph delegation for documented length limits; alignment-contract analysis of vector accesses",
+        "text": "Static, for all lengths: in every family with a reachable documented MESSAGEBYTES_MAX a message/ciphertext length above the "
+                "limit cannot reach a successful, output-producing return (directly or through every callee / dispatch target the length is "
+                "handed to) - this found the genuine defect F3 (IETF xor_ic guard wraps), repaired by a fix: commit; no vector-aligned "
+                "access goes through a pointer derived from a byte-pointer parameter unless every caller passes suitably aligned local / "
+                "global storage (loop-carried pointers followed with stride congruence); decoder stores/loads are capacity-dominated "
+                "(shared with C15). General absence of out-of-bounds accesses and arithmetic UB is NOT decided.",
+    },
     "C13": {
         "engine": "PathAI (E1) + sibling agreement (E7)",
         "technique": "path-sensitive analysis of overlap normalisation before the first output write",
